@@ -1,5 +1,198 @@
-(* C38 — placeholder while the harness/model tie is being brought up. *)
+(* C38 — Backup archives are self-verifying.
+   Only statements, each closed by [exact] of a lemma from Proof/Archive*.v.
+
+   Everything below is about Model/Archive.v (pkg/backup) at the instance where stored
+   objects are byte strings, json.Marshal is the concrete canonical encoder
+   [enc_*_bytes] and the canonical-form check is byte equality with it
+   ([canon_*_bytes]).  SHA-256 is an arbitrary function [H] (conclusions are
+   "verification fails, or here is a collision of H"), Zstandard decoding [unz] and
+   the strict JSON decoders [json_*] are arbitrary functions; what a theorem needs from
+   them is an explicit hypothesis. *)
 From WK Require Import Base.Base Gen.Consts_C38 Model.Archive Model.Archive_C38.
+From WK Require Import Proof.Archive Proof.Archive_binding Proof.Archive_publish Proof.Archive_bytes Proof.Archive_monitor.
 Open Scope N_scope.
-Example c38_placeholder : validate_sha256 (sx "00") = false.
+
+(* ---- VerifyPublishedArchive accepts exactly the complete, bound archives --------------------- *)
+
+(* [consistentb st id m] (Model/Archive.v) says, object by object: no CORRUPT marker;
+   manifest.json and COMPLETE exist with honestly reported sizes within the cap; the manifest is
+   the canonical encoding of the valid manifest m with m.ID = id; COMPLETE is the canonical valid
+   marker naming the manifest's size and digest; the i-th Slot reference has hash slot i and its
+   manifest object is a canonical valid Slot manifest of that slot with the referenced digest
+   and totals; every chunk object has the size the store reports, decodes, and matches both
+   sizes and both digests of its descriptor. *)
+Theorem c38_verify_iff_consistent :
+  forall H unz json_archive json_slot json_marker st id m,
+    verify_b H unz json_archive json_slot json_marker st id = Ok m
+    <-> consistent_b H unz json_archive json_slot json_marker st id m = true.
+Proof. exact verify_iff_consistent_b. Qed.
+Print Assumptions c38_verify_iff_consistent.
+
+(* ---- a published archive verifies and reproduces its manifest -------------------------------- *)
+
+(* PublishArchive (internal/runtime/backup) answered Ok m on a repository that had no CORRUPT
+   marker for the id  =>  VerifyPublishedArchive on the resulting repository answers Ok m.
+   Needed from the JSON layer: the strict decoder gives back a valid marker from its encoding,
+   and decoding a manifest's encoding canonically can only give that manifest. *)
+Theorem c38_published_verifies :
+  forall H unz json_archive json_slot json_marker json_repo st rq st' m,
+    (forall k, validate_complete_marker k = None -> json_marker (enc_complete_marker_bytes k) = Some k) ->
+    (forall a a', json_archive (enc_archive_manifest_bytes a) = Some a' ->
+                  canon_archive_bytes a' (enc_archive_manifest_bytes a) = true -> a' = a) ->
+    publish_b H unz json_archive json_slot json_marker json_repo st rq = (st', Ok m) ->
+    get bytes st (corrupt_key (pr_id rq)) = None ->
+    verify_b H unz json_archive json_slot json_marker st' (pr_id rq) = Ok m.
+Proof. exact published_verifies_b. Qed.
+Print Assumptions c38_published_verifies.
+
+(* ---- any change is detected -------------------------------------------------------------------- *)
+
+(* st verifies; st' is ANY repository that keeps manifest.json or COMPLETE of st and differs from
+   st (contents, reported size, presence) on at least one object the archive reaches (the two
+   top-level objects, every Slot manifest, every chunk): then verification of st' fails, or
+   an explicit collision of H is exhibited.  Covers single and multiple mutations, swaps
+   (reordering), truncation/extension, deletion, size lies. *)
+Theorem c38_mutation_detected :
+  forall H unz json_archive json_slot json_marker st st' id m,
+    verify_b H unz json_archive json_slot json_marker st id = Ok m ->
+    (get bytes st' (manifest_key id) = get bytes st (manifest_key id)
+     \/ get bytes st' (complete_key id) = get bytes st (complete_key id)) ->
+    (exists k, In k (reachable_b json_slot st id m) /\ get bytes st' k <> get bytes st k) ->
+    (exists e, verify_b H unz json_archive json_slot json_marker st' id = Err e) \/ collision_b H.
+Proof. exact mutation_detected_b. Qed.
+Print Assumptions c38_mutation_detected.
+
+(* one object replaced: other contents and/or another reported size *)
+Theorem c38_single_mutation_detected :
+  forall H unz json_archive json_slot json_marker st id m k b sz b' sz',
+    verify_b H unz json_archive json_slot json_marker st id = Ok m ->
+    In k (reachable_b json_slot st id m) -> get bytes st k = Some (b, sz) -> (b', sz') <> (b, sz) ->
+    (exists e, verify_b H unz json_archive json_slot json_marker (put bytes k b' sz' st) id = Err e) \/ collision_b H.
+Proof. exact single_put_detected_b. Qed.
+Print Assumptions c38_single_mutation_detected.
+
+(* one object removed *)
+Theorem c38_deletion_detected :
+  forall H unz json_archive json_slot json_marker st id m k,
+    verify_b H unz json_archive json_slot json_marker st id = Ok m ->
+    In k (reachable_b json_slot st id m) -> get bytes st k <> None ->
+    (exists e, verify_b H unz json_archive json_slot json_marker (del bytes k st) id = Err e) \/ collision_b H.
+Proof. exact delete_detected_b. Qed.
+Print Assumptions c38_deletion_detected.
+
+(* two objects exchanged (chunk or manifest order) *)
+Theorem c38_swap_detected :
+  forall H unz json_archive json_slot json_marker st id m k1 k2 b1 s1 b2 s2,
+    verify_b H unz json_archive json_slot json_marker st id = Ok m -> In k1 (reachable_b json_slot st id m) ->
+    k1 <> manifest_key id -> k2 <> manifest_key id -> k1 <> k2 ->
+    get bytes st k1 = Some (b1, s1) -> get bytes st k2 = Some (b2, s2) -> (b1, s1) <> (b2, s2) ->
+    (exists e, verify_b H unz json_archive json_slot json_marker (put bytes k1 b2 s2 (put bytes k2 b1 s1 st)) id = Err e)
+    \/ collision_b H.
+Proof. exact swap_detected_b. Qed.
+Print Assumptions c38_swap_detected.
+
+(* the general form, for any type of object contents: two repositories holding consistent
+   archives whose top-level manifests have the same digest agree on every reachable object *)
+Theorem c38_archives_bound :
+  forall (body : Type) blen H unz json_archive json_slot json_marker canon_archive canon_slot canon_marker enc_marker
+         (body_eq_dec : forall a b : body, {a = b} + {a <> b}),
+    (forall k kb, canon_marker k kb = true -> kb = enc_marker k) ->
+    forall st st' id m m' mb mb' sz sz',
+    consistentb body blen H unz json_archive json_slot json_marker canon_archive canon_slot canon_marker st id m = true ->
+    consistentb body blen H unz json_archive json_slot json_marker canon_archive canon_slot canon_marker st' id m' = true ->
+    get body st (manifest_key id) = Some (mb, sz) -> get body st' (manifest_key id) = Some (mb', sz') ->
+    H mb = H mb' ->
+    collision body H
+    \/ (m = m' /\ forall k, In k (reachable body json_slot canon_slot st id m) -> get body st k = get body st' k).
+Proof. exact archives_bound. Qed.
+Print Assumptions c38_archives_bound.
+
+(* ---- the decoders are strict and bounded -------------------------------------------------------- *)
+
+(* a manifest decoder accepts a byte string iff it is exactly the canonical encoding of a
+   manifest that passes validation (so: no unknown / duplicate / reordered fields, no other
+   spelling of a value, no surrounding bytes — whatever the JSON layer tolerates) *)
+Theorem c38_decoder_strict_archive :
+  forall json_archive b m,
+    load_archive_manifest bytes json_archive canon_archive_bytes b = Ok m <->
+    json_archive b = Some m /\ validate_archive_manifest m = None /\ b = enc_archive_manifest_bytes m.
+Proof. exact load_archive_strict. Qed.
+Print Assumptions c38_decoder_strict_archive.
+
+Theorem c38_decoder_strict_slot :
+  forall json_slot b m,
+    load_slot_manifest bytes json_slot canon_slot_bytes b = Ok m <->
+    json_slot b = Some m /\ validate_slot_manifest m = None /\ b = enc_slot_manifest_bytes m.
+Proof. exact load_slot_strict. Qed.
+Print Assumptions c38_decoder_strict_slot.
+
+Theorem c38_decoder_strict_marker :
+  forall H json_archive json_marker kb mb k,
+    load_complete_marker bytes blen_bytes H json_archive json_marker canon_archive_bytes canon_marker_bytes kb mb = Ok k ->
+    kb = enc_complete_marker_bytes k /\ validate_complete_marker k = None
+    /\ cm_bytes k = blen_bytes mb /\ cm_sha k = H mb
+    /\ exists m, mb = enc_archive_manifest_bytes m /\ validate_archive_manifest m = None.
+Proof. exact load_marker_strict. Qed.
+Print Assumptions c38_decoder_strict_marker.
+
+(* message chunk indexes: strict, and at most maxMessageChunks entries *)
+Theorem c38_decoder_strict_msg :
+  forall json_msg b m,
+    load_message_chunk_manifest bytes json_msg canon_msg_bytes b = Ok m ->
+    json_msg b = Some m /\ validate_message_chunk_manifest m = None /\ b = enc_msg_manifest_bytes m
+    /\ N.of_nat (length (mm_chunks m)) <= maxMessageChunks.
+Proof. exact load_msg_strict. Qed.
+Print Assumptions c38_decoder_strict_msg.
+
+(* ReadStoredObject pulls at most maxBytes+1 bytes from the object, and what it returns is the
+   stored object, honestly sized, non-empty and within the cap *)
+Theorem c38_read_bounded :
+  forall (body : Type) (blen : body -> N) st key maxb,
+    read_pulled body blen st key maxb <= maxb + 1
+    /\ forall b, read_stored_object body blen st key maxb = Ok b ->
+                 get body st key = Some (b, blen b) /\ 0 < blen b /\ blen b <= maxb.
+Proof. exact read_bounded. Qed.
+Print Assumptions c38_read_bounded.
+
+(* the encoding of a valid COMPLETE marker is a small non-empty object *)
+Theorem c38_marker_encoding_small :
+  forall k, validate_complete_marker k = None -> cm_bytes k <= maxArchiveManifestBytes ->
+    0 < blen_bytes (enc_complete_marker_bytes k) /\ blen_bytes (enc_complete_marker_bytes k) <= maxStoredManifestBytes.
+Proof. exact enc_marker_small. Qed.
+Print Assumptions c38_marker_encoding_small.
+
+(* ---- the monitor evaluated on implementation traces is this property ----------------------- *)
+
+(* on every case (codec ops or archive history) on which the implementation's answers agree
+   with the model's, the monitor holds: its clauses are consequences of the theorems above
+   (verify <-> consistent, published => consistent, accepted <-> canonical valid encoding) *)
+Theorem c38_model_satisfies_monitor : forall c, C38_mismatch c = false -> C38_monitor c = 0.
+Proof. exact agree_monitor. Qed.
+Print Assumptions c38_model_satisfies_monitor.
+
+(* ---- non-vacuity ------------------------------------------------------------------------------- *)
+
+(* the canonical encoder on a small marker; key and digest validators *)
+Example c38_example_marker :
+  enc_complete_marker_bytes (CM CompleteMarkerFormat 1 (sx "00") 7)
+  = sx "{""format"":""wukongim-full-backup-complete"",""version"":1,""manifest_sha256"":""00"",""manifest_bytes"":7}".
 Proof. vm_compute. reflexivity. Qed.
+
+(* json string escaping: a < b U+2028 (invalid byte ff) "   ->   "a\u003cb\u2028\ufffd\"" *)
+Example c38_example_escapes :
+  jstr (hx "613c62e280a8ff22") = hx "22615c7530303363625c75323032385c75666666645c2222".
+Proof. vm_compute. reflexivity. Qed.
+
+Example c38_example_keys :
+  validate_repository_key (sx "slots/007/manifest.json") = true
+  /\ validate_repository_key (sx "slots/../x") = false
+  /\ validate_slot_manifest_key 7 (sx "slots/007/attempts/00000001/manifest.json") = true
+  /\ validate_slot_manifest_key 8 (sx "slots/007/manifest.json") = false.
+Proof. vm_compute. repeat split; reflexivity. Qed.
+
+(* a tiny repository on which reads behave as stated *)
+Example c38_example_read :
+  read_stored_object bytes blen_bytes (put bytes (sx "k") (sx "abc") 3 []) (sx "k") 10 = Ok (sx "abc")
+  /\ read_stored_object bytes blen_bytes (put bytes (sx "k") (sx "abc") 4 []) (sx "k") 10 = Err ECorrupt
+  /\ read_stored_object bytes blen_bytes (put bytes (sx "k") (sx "abc") 3 []) (sx "k") 2 = Err ECorrupt.
+Proof. vm_compute. repeat split; reflexivity. Qed.
